@@ -71,7 +71,7 @@ func genC18Stub(t *Tape, sc *Scenario, x *c18X) *Scenario {
 			st.Rcpt = append(st.Rcpt, code)
 			cl.Ops = append(cl.Ops, ClientOp{Kind: opRcpt, Arg: r})
 			if code/100 == 2 {
-				f := []int{250, 250, 452, 550}[t.Intn(4)]
+				f := []int{250, 250, 452, 550, 421, 554}[t.Intn(6)] // 421 for one recipient does not end the response: the others still get their own reply
 				tx.Finals = append(tx.Finals, f)
 				st.Finals = append(st.Finals, f)
 			}
